@@ -21,6 +21,8 @@ var c05Progs = []string{
 	`reduce .[]? as $x (.; .)`, `reduce .[]? as $x ([]; . + [$x])`, `reduce (1,2) as $x (.; setpath(["k"]; $x)?)`, `foreach .[]? as $x (.; .; .)`, `[foreach (1,2) as $x (.; .a = $x; .)]?`,
 	`[limit(3; repeat(.[0] |= . + 1))]?`, `[limit(2; repeat(.a += 1))]?`, `.[0] as $x | .[0] = 9 | [., $x]`, `(.a, .b) |= . + 1`, `(.[0], .[1]) |= [.]`, `(.a, .a) |= {c: .}`,
 	`{a: [1,2]} | .a[0] = 7`, `[1,[2]] | .[1][0] = 7`, `[3,1,2] | sort`, `{a:1} + .?`, `[1] + .?`, `. * {a: {c: 1}}?`, `{a:{b:1}} * .?`, `[1,2] - .?`, `. - [1]?`,
+	`[range(3)] as $a | ($a + [10], $a + [20])`, `[range(3)] as $a | [$a + [10], $a + [20]]`, `[.[]?] as $a | ($a + [1], $a + [2])`, `[.[]?] | (. + [1]), (. + [2])`, `. as $a | [$a[:1] + [10], $a[:1] + [20], $a]?`, `[$v[]] as $a | [$a + ["x"], $a + ["y"], $a]`,
+	`[.[]?] | [. + [1], . + [2]] | .[0]`, `[limit(3; repeat(1))] as $a | [$a + [2], $a + [3]]`, `(. // []) as $a | [$a + [[1]], $a + [[2]]]?`, `[.[]?] as $a | $a + [1] | [., $a + [2]]`,
 	`$v`, `$v | .[0] = 9`, `$v | del(.[0])`, `[$v, $v] | .[0][0] = 1`, `. as $x | $v | .[1:] = $x?`, `$v + .?`, `[$v[]?] | sort`, `$v | map(. )`, `$v | .[0] += 1`, `[., $v] | del(.[][0]?)`,
 	`ltrimstr("a")`, `ascii_downcase?`, `explode? | implode`, `split("a")? | join("a")`, `tojson | fromjson`, `tostring`, `@json`, `@base64? | @base64d`, `[splits("a")?]`, `sub("a"; "b")?`, `test("a")?`, `[match("a"; "g")?]`,
 	`[limit(2; range(5))]`, `[range(0; 3)]`, `path(..)`, `[path(.a[0]?)]`, `paths`, `paths(type == "number")`, `any`, `all`, `isempty(.[]?)`, `env`, `$ENV`, `builtins | length`, `halt_error?`, `error?`, `try error catch .`,
